@@ -1,0 +1,22 @@
+//go:build verif
+
+// Contracts for package sequence, read by /verif/govc.
+package sequence
+
+// Set is how a database that is being opened tells the process-wide counter about the
+// sequence numbers it already holds: afterwards the counter must not be below s, whatever
+// it was before (other databases may have been opened earlier in the same process), and it
+// never moves backwards.
+//@ func Set
+//@   modifies cell[uint64]
+//@   ensures raised:   seq >= s
+//@   ensures monotone: seq >= old(seq)
+//@ loop Set#1
+//@   invariant monotone: seq >= old(seq)
+
+// Next draws a number above everything drawn or announced before.
+//@ func Next
+//@   requires room:   seq < 18446744073709551615
+//@   modifies cell[uint64]
+//@   ensures  above:  result > old(seq)
+//@   ensures  issued: seq == result
